@@ -475,6 +475,7 @@ struct ProgRun {
     bool degraded = false;     // C06 only: boundary checks switched off after a foreign finding
     uint64_t resyncs = 0;      // lockstep mismatches owned by another property after which the model adopted the observed state
     bool echoOff = false;
+    std::vector<bool> prevSimMeasured;   // simulator's measured flags at the previous boundary
     sim::Hash evlog;
     std::string property;
 };
@@ -497,7 +498,7 @@ qh::Observation observe(runtime::RuntimeEvaluator* ev) {
             if (n.size() < 2 || !isdigit((unsigned char)n[1])) continue;
             if ((n[0] == 'q' || n[0] == 'a') && v.type == runtime::Value::Type::Qubit) ob.declIndices[n] = {v.qubit};
             else if (n[0] == 'r' && v.type == runtime::Value::Type::QubitArray) ob.declIndices[n] = v.qubitArray;
-            else if ((n[0] == 'o' || n[0] == 'p') && v.type == runtime::Value::Type::Object && v.objectValue) {
+            else if ((n[0] == 'o' || n[0] == 'p' || n[0] == 't') && v.type == runtime::Value::Type::Object && v.objectValue) {
                 std::vector<int> idx;
                 for (auto& f : v.objectValue->fields) {
                     if (f.type == runtime::Value::Type::Qubit) idx.push_back(f.qubit);
@@ -513,13 +514,17 @@ qh::Observation observe(runtime::RuntimeEvaluator* ev) {
 }
 
 std::string declName(const qh::DeclInfo& d, size_t id) {
-    static const char pre[] = {'q', 'r', 'o', 'p', 'a'};
+    static const char pre[] = {'q', 'r', 'o', 'p', 'a', 't'};
     return std::string(1, pre[d.kind]) + std::to_string(id);
 }
 
 // boundary checks after op `done` (the model has just applied it)
 void boundaryChecks(ProgRun& pr, const qh::Observation& ob, int done) {
     auto& I = pr.interp;
+    std::vector<int> newlyFlagged;       // simulator qubits whose measured flag was set by the op just completed
+    for (size_t x = 0; x < ob.simMeasured.size(); ++x)
+        if (ob.simMeasured[x] && !(x < pr.prevSimMeasured.size() && pr.prevSimMeasured[x])) newlyFlagged.push_back((int)x);
+    pr.prevSimMeasured = ob.simMeasured;
     if (pr.degraded) return;
     auto push = [&](const std::string& cls, const std::string& owner, const std::string& d) {
         pr.findings.push_back({cls, owner, d});
@@ -573,6 +578,7 @@ void boundaryChecks(ProgRun& pr, const qh::Observation& ob, int done) {
             return;
         }
         if (I.decls[id].kind == 4) continue;  // aliases are judged below
+        if (I.decls[id].kind == 5) continue;  // a port names a local's qubit by design
         for (int x : it->second) {
             if (owner.count(x)) { push("two_declarations_share_qubit", "C03", name + " and " + owner[x] + " both hold q[" + std::to_string(x) + "]"); if (!pr.degraded) pr.desync = true; return; }
             owner[x] = name;
@@ -585,6 +591,20 @@ void boundaryChecks(ProgRun& pr, const qh::Observation& ob, int done) {
         if (it == ob.declIndices.end() || it->second.size() != 1 || it->second[0] != I.staticIdx) { push("handle_denotes_other_qubit", "C03", "static field SQ.s holds " + (it == ob.declIndices.end() ? std::string("nothing") : std::to_string(it->second[0])) + ", created for q[" + std::to_string(I.staticIdx) + "]"); if (!pr.degraded) pr.desync = true; return; }
         if (owner.count(I.staticIdx)) { push("two_declarations_share_qubit", "C03", "SQ.s and " + owner[I.staticIdx] + " both hold q[" + std::to_string(I.staticIdx) + "]"); if (!pr.degraded) pr.desync = true; return; }
         owner[I.staticIdx] = "SQ.s";
+    }
+    // C03: an operation reaches the simulator qubits its handle denotes and no others: a measurement must not flag
+    // (and collapse) a qubit that belongs to another declaration
+    if (last && !newlyFlagged.empty()) {
+        std::vector<int> allowed;
+        if ((last->kind == qh::MEAS_STMT || last->kind == qh::MEAS_EXPR) && (last->h.k == 5 || last->h.decl < (int)I.declIdx.size())) allowed.push_back(I.resolve(last->h));
+        else if (last->kind == qh::MEAS_ARR && last->h.decl < (int)I.declIdx.size()) allowed = I.declIdx[(size_t)last->h.decl];
+        for (int x : newlyFlagged) {
+            if (std::find(allowed.begin(), allowed.end(), x) != allowed.end()) continue;
+            std::string a;
+            for (int y : allowed) a += std::to_string(y) + " ";
+            push("operation_reached_other_qubit_than_its_handle", "C03", "op " + std::to_string(done) + " (" + after + (last->kind >= qh::GATE ? " via " + qh::handleExpr(last->h) : std::string()) + ") denotes simulator qubit(s) [" + a + "] but the simulator measured q[" + std::to_string(x) + "]");
+            return;
+        }
     }
     // an alias copied from an object's field must not come to share a qubit with another declaration
     for (auto& kv : I.aliasTarget) {
@@ -765,7 +785,11 @@ ProgOutcome runProgram(const qh::Plan& plan, const std::string& property, uint64
             }
         }
         // ---- end-of-run oracles (normal end, model in sync) ----
-        if (!pr.desync && R.status == 0 && pr.findings.empty() && logOn) {
+        // a Port object lives to the end of main and dies in the unordered scope teardown, where it resets the local it
+        // names last: what is emitted and recorded after the end marker is then order-dependent and is not judged
+        bool hasPort = false;
+        for (auto& o : plan.ops) hasPort |= o.kind == qh::PORT;
+        if (!pr.desync && R.status == 0 && pr.findings.empty() && logOn && !hasPort) {
             // C05: emitted text
             std::string text = ev.getQasm();
             refq::QasmProgram P = refq::parseQasm(text);
@@ -803,7 +827,7 @@ ProgOutcome runProgram(const qh::Plan& plan, const std::string& property, uint64
             }
         }
         // C02: the tracked outcome recorded when main's scope ends agrees with the last measurements
-        if (!pr.desync && R.status == 0 && pr.findings.empty()) {
+        if (!pr.desync && R.status == 0 && pr.findings.empty() && !hasPort) {
             std::map<std::string, std::string> want;
             auto& I = pr.interp;
             for (size_t id = 0; id < I.decls.size(); ++id) {
@@ -855,35 +879,52 @@ ProgOutcome runProgram(const qh::Plan& plan, const std::string& property, uint64
 
 // ---- CLI clause of C05: the .qasm file equals what --emit-qasm prints ---------------------------------
 std::string g_scratch;
-bool cliQasmFileCheckOnce(const qh::Plan& plan, int shots, std::string& detail, bool keepOldFile);
+bool cliQasmFileCheckOnce(const qh::Plan& plan, int shots, std::string& detail, bool keepOldFile, int spelling);
 // The file clause, including a stale file: when the plan owns no objects, the program is first run in full and
 // then truncated before its last gate with the same scripted draws, so that the second run's text is a strict
 // prefix of the file the first run left behind.
-bool cliQasmFileCheck(const qh::Plan& plan, int shots, std::string& detail) {
+// spelling: how the source is named on the command line. 0 absolute; 1 through <symlink-to-directory>/.. (the file
+// next to the source is then NOT where a lexical normalisation of the argument points); 2 relative to the working
+// directory with a redundant sub/.. component.
+bool cliQasmFileCheck(const qh::Plan& plan, int shots, std::string& detail, int spelling) {
     bool objects = false;
     int lastGate = -1;
     for (size_t i = 0; i < plan.ops.size(); ++i) {
-        if (plan.ops[i].kind == qh::NEWOBJ1 || plan.ops[i].kind == qh::NEWOBJ2 || plan.ops[i].kind == qh::CYCLE || plan.ops[i].kind == qh::ALIAS) objects = true;
+        if (plan.ops[i].kind == qh::NEWOBJ1 || plan.ops[i].kind == qh::NEWOBJ2 || plan.ops[i].kind == qh::CYCLE || plan.ops[i].kind == qh::ALIAS || plan.ops[i].kind == qh::PORT) objects = true;
         if (plan.ops[i].kind == qh::GATE) lastGate = (int)i;
     }
-    if (!cliQasmFileCheckOnce(plan, shots, detail, false)) return false;
+    if (!cliQasmFileCheckOnce(plan, shots, detail, false, spelling)) return false;
     if (!objects && lastGate > 0) {
         qh::Plan t = plan;
         t.ops.resize((size_t)lastGate);
         std::string d2;
-        if (!cliQasmFileCheckOnce(t, shots, d2, true)) { detail = "after a longer run had left its .qasm file in place: " + d2; return false; }
+        if (!cliQasmFileCheckOnce(t, shots, d2, true, spelling)) { detail = "after a longer run had left its .qasm file in place: " + d2; return false; }
     }
     return true;
 }
-bool cliQasmFileCheckOnce(const qh::Plan& plan, int shots, std::string& detail, bool keepOldFile) {
+bool cliQasmFileCheckOnce(const qh::Plan& plan, int shots, std::string& detail, bool keepOldFile, int spelling) {
     qh::Plan p = plan;
     p.shots = shots;
     qh::Rendered rd = qh::render(p);
-    std::string base = g_scratch + "/prog";
+    std::string base = g_scratch + "/prog", arg = base + ".bloch", decoy;
+    char oldCwd[4096] = "";
+    if (spelling == 1) {
+        // real layout: <scratch>/sub/prog.bloch, <scratch>/sub/deep/, <scratch>/lnk -> sub/deep ; argument <scratch>/lnk/../prog.bloch
+        sim::mkdirs(g_scratch + "/sub/deep");
+        if (symlink((g_scratch + "/sub/deep").c_str(), (g_scratch + "/lnk").c_str()) != 0 && errno != EEXIST) { detail = "harness: symlink failed"; return true; }
+        base = g_scratch + "/sub/prog";
+        arg = g_scratch + "/lnk/../prog.bloch";
+        decoy = g_scratch + "/prog.qasm";
+    } else if (spelling == 2) {
+        sim::mkdirs(g_scratch + "/sub");
+        if (!getcwd(oldCwd, sizeof oldCwd) || chdir(g_scratch.c_str()) != 0) { detail = "harness: chdir failed"; return true; }
+        arg = "sub/../prog.bloch";
+    }
     sim::writeFile(base + ".bloch", rd.source);
     if (!keepOldFile) unlink((base + ".qasm").c_str());
+    if (!decoy.empty()) unlink(decoy.c_str());
     g_rng.reset(0x5eed, 7);   // the same draws for the full and the truncated run
-    std::vector<std::string> args = {"bloch", "--emit-qasm", base + ".bloch"};
+    std::vector<std::string> args = {"bloch", "--emit-qasm", arg};
     std::vector<char*> av;
     for (auto& a : args) av.push_back(const_cast<char*>(a.c_str()));
     gcs::g_observer = nullptr;
@@ -902,9 +943,10 @@ bool cliQasmFileCheckOnce(const qh::Plan& plan, int shots, std::string& detail, 
         out = cap.out.str();
     }
     rngs::Provider::uninstall();
+    if (oldCwd[0] && chdir(oldCwd) != 0) { detail = "harness: chdir back failed"; return true; }
     if (rc != 0) { detail = "cli::run returned " + std::to_string(rc); return true; }  // runtime error paths are not this clause
     std::string file;
-    if (!sim::readFile(base + ".qasm", file)) { detail = "no .qasm file written next to the source"; return false; }
+    if (!sim::readFile(base + ".qasm", file)) { detail = "no .qasm file written next to the source (source named as '" + arg + "')"; return false; }
     size_t pos = out.find("OPENQASM 2.0;");
     if (pos == std::string::npos) { detail = "--emit-qasm printed no OpenQASM text"; return false; }
     if (out.substr(pos) != file) { detail = "bytes of prog.qasm differ from the OpenQASM section printed by --emit-qasm (shots=" + std::to_string(shots) + ")"; return false; }
@@ -962,7 +1004,7 @@ qh::GenOptions genOptionsFor(const std::string& property, sim::Rng& knob) {
     if (property == "C02") { go.boundaryDrawProb = 0.3; }
     go.tracked = knob.chance(0.3);
     if (property == "C04") go.aliasProb = knob.chance(0.3) ? 0.12 : 0.0;
-    if (property == "C03") { go.aliasProb = knob.chance(0.1) ? 0.12 : 0.0; go.cycleProb = knob.chance(0.4) ? 0.1 : 0.0; }
+    if (property == "C03") { go.aliasProb = knob.chance(0.1) ? 0.12 : 0.0; go.cycleProb = knob.chance(0.4) ? 0.1 : 0.0; go.portProb = knob.chance(0.25) ? 0.1 : 0.0; }
     if (property == "C05" || property == "C04") go.cycleProb = knob.chance(0.15) ? 0.08 : 0.0;
     if (property == "C05" || property == "C06") go.sameQubitCxProb = 0.02;
     go.staticQubit = knob.chance(0.12);
@@ -1093,7 +1135,9 @@ void runOne(const sim::Options& opt, uint64_t run, sim::RunReport& rep) {
         std::string d;
         rep.count("cli.qasm_file_checks");
         int shots = (run % 16 == 1) ? 0 : 2;
-        if (!cliQasmFileCheck(plan, shots, d)) { cls = "qasm_file_differs_from_emit_qasm"; detail = d; }
+        int spelling = (int)((run / 24) % 3);
+        rep.count(spelling == 1 ? "cli.source_named_through_symlink_dotdot" : spelling == 2 ? "cli.source_named_relative_with_dotdot" : "cli.source_named_absolute");
+        if (!cliQasmFileCheck(plan, shots, d, spelling)) { cls = "qasm_file_differs_from_emit_qasm"; detail = d; }
     }
     sim::Hash h;
     h.add(po.evlog.h);
@@ -1118,11 +1162,11 @@ void runOne(const sim::Options& opt, uint64_t run, sim::RunReport& rep) {
         std::vector<int> alive;  // decl kinds
         std::vector<bool> isAlive;
         for (auto& o : ops) {
-            if (qh::isDecl(o.kind)) { if (o.kind == qh::ALIAS && !(o.h2.decl < (int)alive.size() && isAlive[(size_t)o.h2.decl])) return false; alive.push_back(o.kind); isAlive.push_back(true); continue; }
+            if (qh::isDecl(o.kind)) { if ((o.kind == qh::ALIAS || o.kind == qh::PORT) && !(o.h2.decl < (int)alive.size() && isAlive[(size_t)o.h2.decl])) return false; alive.push_back(o.kind); isAlive.push_back(true); continue; }
             if (o.kind == qh::CYCLE) continue;
             auto ok = [&](const qh::Handle& h) { return h.decl < (int)alive.size() && isAlive[(size_t)h.decl]; };
             if (!ok(o.h)) return false;
-            if (o.kind == qh::CX && !ok(o.h2)) return false;
+            if ((o.kind == qh::CX || o.kind == qh::REBIND) && !ok(o.h2)) return false;
             if (o.kind == qh::DROP) isAlive[(size_t)o.h.decl] = false;
         }
         // every object must be dropped before the end
@@ -1146,7 +1190,7 @@ void runOne(const sim::Options& opt, uint64_t run, sim::RunReport& rep) {
         qh::Plan c = plan;
         c.ops = ops;
         std::string d;
-        if (cliCls) { std::string dd; return !cliQasmFileCheck(c, (run % 16 == 1) ? 0 : 2, dd); }
+        if (cliCls) { std::string dd; return !cliQasmFileCheck(c, (run % 16 == 1) ? 0 : 2, dd, (int)((run / 24) % 3)); }
         return progClass(c, property, opt.seed, run, d) == cls;
     };
     std::vector<qh::Op> min = sim::ddmin<qh::Op>(plan.ops, fails, budget);
@@ -1157,7 +1201,7 @@ void runOne(const sim::Options& opt, uint64_t run, sim::RunReport& rep) {
     if (cliCls) {
         // re-evaluate the file clause twice on the minimised plan
         std::string e1, e2;
-        bool f1 = !cliQasmFileCheck(mp, (run % 16 == 1) ? 0 : 2, e1), f2 = !cliQasmFileCheck(mp, (run % 16 == 1) ? 0 : 2, e2);
+        bool f1 = !cliQasmFileCheck(mp, (run % 16 == 1) ? 0 : 2, e1, (int)((run / 24) % 3)), f2 = !cliQasmFileCheck(mp, (run % 16 == 1) ? 0 : 2, e2, (int)((run / 24) % 3));
         c1 = f1 ? cls : "";
         c2 = f2 ? cls : "";
         d1 = e1;
@@ -1170,7 +1214,7 @@ void runOne(const sim::Options& opt, uint64_t run, sim::RunReport& rep) {
     v.detail = d1.empty() ? detail : d1;
     v.reproducible = c1 == cls && c2 == cls && d1 == d2;
     v.plan = planJson(false, {}, mp);
-    v.plan.set("rng_seed", Json((unsigned long long)opt.seed)).set("rng_run", Json((unsigned long long)run)).set("cli_shots", (run % 16 == 1) ? 0 : 2);
+    v.plan.set("rng_seed", Json((unsigned long long)opt.seed)).set("rng_run", Json((unsigned long long)run)).set("cli_shots", (run % 16 == 1) ? 0 : 2).set("cli_spelling", (int)((run / 24) % 3));
     rep.violations.push_back(std::move(v));
 }
 
@@ -1234,7 +1278,7 @@ int doReplay(const sim::Options& opt) {
         cls = progClass(p, property, seed, run, detail);
         if (cls.empty() && file.at("violation").at("class").asStr() == "qasm_file_differs_from_emit_qasm") {
             std::string d;
-            if (!cliQasmFileCheck(p, (int)pj.at("cli_shots").asInt(), d)) { cls = "qasm_file_differs_from_emit_qasm"; detail = d; }
+            if (!cliQasmFileCheck(p, (int)pj.at("cli_shots").asInt(), d, pj.has("cli_spelling") ? (int)pj.at("cli_spelling").asInt() : 0)) { cls = "qasm_file_differs_from_emit_qasm"; detail = d; }
         }
     }
     if (cls.empty()) { printf("REPLAY ok\n"); return 0; }
@@ -1322,7 +1366,7 @@ int main(int argc, char** argv) {
     // vacuity guard
     std::vector<std::string> mandatory = {"rng.words_drawn", "sim.measures", "sim.resets", "sim.entangled_resets", "sim.boundary_draws", "prog.boundaries_checked", "prog.reuse_events", "prog.genuine_resets", "prog.boundary_draws"};
     if (opt.property == "C06") { mandatory.push_back("prog.ended_with_runtime_error"); mandatory.push_back("sim.guard_probes"); }
-    if (opt.property == "C05") mandatory.push_back("cli.qasm_file_checks");
+    if (opt.property == "C05") { mandatory.push_back("cli.qasm_file_checks"); mandatory.push_back("cli.source_named_through_symlink_dotdot"); }
     if (R.runs >= 1000 && !g_bigReg) {
         for (auto& m : mandatory)
             if (R.counters[m] == 0) { fprintf(stderr, "HARNESS: mandatory reach counter %s is zero\n", m.c_str()); if (S.exitCode == 0) S.exitCode = 2; }
